@@ -365,6 +365,14 @@ class SvAppendInPlace(_FloatOp):
         return FloatDataType(data.data + 1.0)
 
 
+class SvLabel(_FloatOp):
+    """Identity on the data; takes a free-form text parameter (any str the configuration can hold)."""
+
+    def _process_logic(self, data, label: str = ""):
+        _invoke("SvLabel", {"label": label}, data)
+        return FloatDataType(data.data + 0.0)
+
+
 class SvCtxWriterFlag(_FloatOp):
     """Writes the boolean True under the declared key ``flag`` (a value that compares equal to the float 1.0)."""
 
@@ -589,7 +597,7 @@ class SvBadCtxProc(ContextProcessor):
 
 LEAF_NAMES = [
     "SvSource", "SvSourceDefault", "SvPayloadSource", "SvAdd", "SvAddDefault", "SvMul",
-    "SvMulDefault", "SvAffine", "SvClip", "SvPoly", "SvJitter", "SvSlow", "SvCaseOp", "SvScaleInPlace", "SvToStream", "SvStreamSum", "SvNeedsSubFloat", "SvRaiseOdd", "SvProbeNone", "SvWrongOutput", "SvWriteThenFail", "SvCtxWriterOpaque", "SvCtxWriterArray", "SvCtxWriterMixedKeys", "SvAppendInPlace", "SvUseModel", "SvCtxWriterFlag", "SvCtxWriterA", "SvCtxWriterB", "SvBadWriter", "SvToText",
+    "SvMulDefault", "SvAffine", "SvClip", "SvPoly", "SvJitter", "SvSlow", "SvCaseOp", "SvScaleInPlace", "SvToStream", "SvStreamSum", "SvNeedsSubFloat", "SvRaiseOdd", "SvProbeNone", "SvWrongOutput", "SvWriteThenFail", "SvCtxWriterOpaque", "SvCtxWriterArray", "SvCtxWriterMixedKeys", "SvAppendInPlace", "SvUseModel", "SvLabel", "SvCtxWriterFlag", "SvCtxWriterA", "SvCtxWriterB", "SvBadWriter", "SvToText",
     "SvTextLen", "SvBumpLast", "SvCollSum", "SvProbe", "SvProbeParam", "SvProbeDefault", "SvFileSink",
     "SvNullSink", "SvPayloadSink", "SvCtxCombine", "SvBadCtxProc",
 ]
